@@ -61,7 +61,7 @@ RawSlice(T, a, b) == CJSeq(SubSeq(T.raw, a, b))
 RECURSIVE SetAsSeq(_)
 SetAsSeq(S) == IF S = {} THEN <<>> ELSE LET x == CHOOSE y \in S : TRUE IN <<x>> \o SetAsSeq(S \ {x})
 
-MaxFails == 12
+MaxFails == 24
 MaxKeys == 24
 NoteNames == {"expected_exc", "untrimmed_skipped", "untrimmed_compared", "def", "reads", "work", "purge_exact",
               "reindex", "recalc_same", "noninterference", "args"}
@@ -73,14 +73,17 @@ DebugUnch == "TRACE_DEBUG" \in DOMAIN IOEnv
 \* --------------------------------------------------------------------------
 ByName(T, nm) == {n \in 1..Len(T.ind) : T.ind[n].name = nm}
 Initial(T) == {n \in 1..Len(T.ind) : T.ind[n].act = 1}
+\* the configuration an add_indicator call registers: given by its number (two configurations may share a
+\* generated name: the name does not carry every setting), else by name
+Added(T, e) == IF e.idx >= 1 /\ e.idx <= Len(T.ind) THEN {e.idx} ELSE ByName(T, e.nm)
 RegAfter(T, e) ==
   CASE e.op = "new" -> Initial(T)
-    [] e.op = "add" -> reg \cup ByName(T, e.nm)
+    [] e.op = "add" -> reg \cup Added(T, e)
     [] e.op = "remove" -> reg \ ByName(T, e.nm)
     [] OTHER -> reg
 MgsAfter(T, e) ==
   CASE e.op = "new" -> {1} \cup {T.ind[n].mg : n \in Initial(T)}
-    [] e.op = "add" -> mgs \cup {T.ind[n].mg : n \in ByName(T, e.nm)}
+    [] e.op = "add" -> mgs \cup {T.ind[n].mg : n \in Added(T, e)}
     [] OTHER -> mgs
 
 \* which registered indicators the call is aimed at ("" = all of them)
@@ -504,7 +507,14 @@ Step ==
          \* a scenario family may mute clauses that say nothing about it (T.mute)
          bad  == {f \in fs : f[1] \notin (IF DebugUnch THEN {"ok"} ELSE {"ok", "unchecked"})
                               /\ f[1] \notin {T.mute[q] : q \in 1..Len(T.mute)}}
-         bseq == SetAsSeq(bad)
+         \* at most a few findings per clause and call (the lowest candles): one clause failing on every
+         \* candle must not crowd the others out of the report
+         low  == {f \in bad : Cardinality({g \in bad : g[1] = f[1] /\ g[4] < f[4]}) < 2}
+         few  == UNION { LET S  == {f \in low : f[1] = c}
+                             f1 == CHOOSE f \in S : TRUE
+                         IN IF S = {f1} THEN {f1} ELSE {f1, CHOOSE f \in S \ {f1} : TRUE}
+                       : c \in {f[1] : f \in low} }
+         bseq == SetAsSeq(few)
      IN /\ fails' = IF Len(fails) >= MaxFails THEN fails
                     ELSE fails \o [q \in 1..MinI(Len(bseq), MaxFails - Len(fails)) |-> <<l>> \o bseq[q]]
         /\ unch' = unch + Cardinality({f \in fs : f[1] = "unchecked"})
